@@ -31,7 +31,7 @@ SYMS = ([["req", i, v] for i in (1, 2) for v in range(3)] + [["release", 1], ["r
         ["load", "json"], ["load", "bin"], ["restart", "json"], ["restart", "bin"]])
 RULE = ("small-scope sweep: all event sequences to length 3 (quick) / 5 (thorough) over a 14-symbol alphabet {request(id in {1,2}, via "
         "in {direct, 0o1, 0o21}), release(id), save json|bin, load json|bin, restart+load json|bin}; seeded sequences of length 4..8 over the same alphabet; seeded histories to length 30 "
-        "with IDs 1..255, vias of level 0..3 and repeated requests that fill parents completely; pairs of requests in flight at once (the second arrives 0..70 ms after the first, "
+        "with IDs 1..255, vias of level 0..3 and repeated requests that fill parents completely; requests whose origin is no logical address, leases expired through the master's release_address(address), idle update() calls (the table stays as it is, nothing is transmitted), pairs of requests in flight at once (the second arrives 0..70 ms after the first, "
         "i.e. also while the master waits for the NETWORK_ACK of a routed reply); tables of 0..255 random entries saved and re-loaded by a fresh object in both formats. Non-trivial: at least one lease "
         "was granted; distinct = distinct event sequences")
 ASSUMPTIONS = ["requests are injected as frames on the master's pipes (a relayed request = origin rewritten to the via node)",
@@ -39,7 +39,7 @@ ASSUMPTIONS = ["requests are injected as frames on the master's pipes (a relayed
 CLAUSES = {"injective": "never maps two node IDs to the same address; an ID that asks again keeps a single lease",
            "lease": "valid direct child of the via node, never 0, never 0o4444, never leased to another ID (also: never an address another ID was told in a reply and still holds)", "reply": "reply travels back toward the requester carrying its ID",
            "reuse": "a released address becomes available again", "persist": "save_dhcp()/load_dhcp() reproduce the table exactly in both file formats"}
-PROBES = ["request_pair"]
+PROBES = ["request_pair", "events_that_leave_the_table_alone"]
 SHRINK_KEYS = ("events",)
 CHUNK = 150
 
@@ -86,6 +86,8 @@ def make(i, base_seed, tier):
             ev.append(["req", s[1], VIAS[s[2]]] if s[0] == "req" else list(s))
             if xr.random() < 0.15:
                 ev.append(_pair(xr, [1, 2, 3]))
+            if xr.random() < 0.2:
+                ev.append(_extra(xr, [1, 2, 3]))
         return {"seed": seed, "events": ev, "kind": "small_random"}
     ids = rng.sample(range(1, 256), rng.randint(2, 12))
     vias = [0o4444, 0o4444, 0o1, 0o2, 0o21, 0o321, 0o5, 0o15, 0o44, 0o444, 0o4, 0o344]
@@ -95,6 +97,8 @@ def make(i, base_seed, tier):
         k = rng.random()
         if xr.random() < 0.1:
             ev.append(_pair(xr, ids))
+        if xr.random() < 0.12:
+            ev.append(_extra(xr, ids))
         if k < 0.6:
             ev.append(["req", rng.choice(ids), rng.choice(vias[:rng.choice([2, 4, 8, 12])])])
         elif k < 0.75:
@@ -110,6 +114,17 @@ def _pair(xr, ids):
     a, b_ = xr.sample(list(ids), 2) if len(ids) > 1 else (ids[0], ids[0])
     gap = xr.choice([0, 300, 1500]) if xr.random() < 0.2 else xr.randint(2000, 70000)
     return ["pair", a, xr.choice([0o21, 0o21, 0o11, 0o321, 0o31, 0o4444, 0o1]), b_, xr.choice([0o4444, 0o4444, 0o1, 0o21, 0o2, 0o321]), gap]
+
+
+def _extra(xr, ids):
+    """events that must leave the table alone (or change it in one documented way): a request whose origin is no logical address, a lease
+    expired through the master's own release_address(address), an update() with nothing received"""
+    k = xr.random()
+    if k < 0.4:
+        return ["badreq", xr.choice(list(ids)), xr.choice([0o4440, 0o6, 0o70, 0o11111, 0o7777, 0o60001 & 0xFFFF])]
+    if k < 0.7:
+        return ["apirelease", xr.choice(list(ids))]
+    return ["idle", xr.randint(1, 3)]
 
 
 def run(scn):
@@ -157,6 +172,12 @@ def _told(res, w, a0, told, table, where):
                     % (where, nid, told[nid], oct(table[nid]) if nid in table else "nothing", {k: oct(v) for k, v in table.items()}))
             return False
     return True
+
+
+def rng_pipe(origin):
+    """pipe on which a frame from this (possibly invalid) origin would reach the master"""
+    d = origin & 7
+    return d if 1 <= d <= 5 else 0
 
 
 def _run(scn, w, res):
@@ -308,6 +329,47 @@ def _run(scn, w, res):
                         return
                 ever_leased.add(new)
             if not _told(res, w, a0, told, table, where):
+                return
+        elif ev[0] in ("badreq", "idle", "apirelease"):
+            a0 = len(w.air.trace)
+            want = dict(before)
+            what = "%s %r" % (ev[0], ev[1:])
+            try:
+                if ev[0] == "badreq":
+                    fid += 1
+                    rl.rx_fifo.clear()
+                    inj.send(rm.pipe_addr(rng_pipe(ev[2])), netref.pack_header(ev[2], 0, fid, 195, ev[1]), want_ack=False)
+                    for _ in range(3):
+                        master.update()
+                elif ev[0] == "idle":
+                    for _ in range(ev[1]):
+                        master.update()
+                else:
+                    nid = ev[1]
+                    if nid in master.dhcp_dict:
+                        addr_ = master.dhcp_dict[nid]
+                        ok_ = master.release_address(addr_)
+                        want.pop(nid, None)
+                        told.pop(nid, None)
+                        if ok_ is not True:
+                            res.add("reuse", {"kind": "api_release_result"}, "release_address(%o) returned %r for a leased address" % (addr_, ok_))
+                            return
+                    for _ in range(2):
+                        master.update()
+            except SimAbort:
+                raise
+            except Exception as e:
+                res.add("lease", {"kind": "update_raised", "exc": type(e).__name__}, "%s raised %r" % (what, e))
+                return
+            rl.rx_fifo.clear()
+            sim.count("events_that_leave_the_table_alone")
+            if dict(master.dhcp_dict) != want:
+                res.add("injective", {"kind": "table_changed_without_request", "after": ev[0]}, "%s turned the table %r into %r"
+                        % (what, {k: oct(v) for k, v in before.items()}, {k: oct(v) for k, v in master.dhcp_dict.items()}))
+                return
+            sent = [t for t in w.air.trace[a0:] if t["src"] == "M" and not t["ack"] and len(t["data"]) >= 8 and t["data"][6] == 128]
+            if sent:
+                res.add("reply", {"kind": "reply_without_request", "after": ev[0]}, "%s made the master transmit a MESH_ADDR_RESPONSE (%s)" % (what, sent[0]["data"][:10].hex()))
                 return
         elif ev[0] == "fill":
             frng = stream(scn["seed"], "fill")
